@@ -15,21 +15,21 @@ import (
 // Walker emits state-aware random histories: it looks at the decoded state of the sandbox
 // to produce meaningful commands, mixed with hostile ones.
 type Walker struct {
-	W        *core.World
-	R        *rand.Rand
-	Opts     gen.NameOpts
-	Pool     []string // candidate file paths for this history
-	MsgN     int
-	Weights  map[string]int
-	Hostile  int  // percent of path/branch arguments that are hostile
-	Swap     bool // allow file<->directory swaps
-	Escape   bool // allow paths escaping the root / inside .goit in arguments
-	MsgClass bool // use the message classes of C11/C12 (else plain single-line messages)
+	W           *core.World
+	R           *rand.Rand
+	Opts        gen.NameOpts
+	Pool        []string // candidate file paths for this history
+	MsgN        int
+	Weights     map[string]int
+	Hostile     int  // percent of path/branch arguments that are hostile
+	Swap        bool // allow file<->directory swaps
+	Escape      bool // allow paths escaping the root / inside .goit in arguments
+	MsgClass    bool // use the message classes of C11/C12 (else plain single-line messages)
 	BranchNames []string
-	MaxContent int
-	total    int
-	keys     []string
-	invalid  string // reason why the next command is constructed as invalid ("" = not)
+	MaxContent  int
+	total       int
+	keys        []string
+	invalid     string // reason why the next command is constructed as invalid ("" = not)
 }
 
 func NewWalker(w *core.World, opts gen.NameOpts, weights map[string]int) *Walker {
@@ -233,7 +233,15 @@ func (k *Walker) PathArgs(cmd string) []string {
 		}
 		k.W.C.Class("arg:" + cmd + ":" + class)
 		// alternative spellings
-		if class != "hostile" && a != "." && k.chance(10) {
+		if class != "hostile" && cmd == "add" && k.chance(6) {
+			// absolute path of the same thing
+			if a == "." {
+				a = k.W.SB.W()
+			} else {
+				a = k.W.SB.W() + "/" + a
+			}
+			k.W.C.Class("arg:" + cmd + ":absolute-spelling")
+		} else if class != "hostile" && a != "." && k.chance(10) {
 			switch k.R.IntN(3) {
 			case 0:
 				a = "./" + a
@@ -435,7 +443,11 @@ func (k *Walker) Do(action string) {
 		if k.chance(50) {
 			k.goit("log")
 		} else {
-			k.goit("log", "-n", fmt.Sprint(k.R.IntN(8)))
+			n := fmt.Sprint(k.R.IntN(8))
+			if k.chance(k.Hostile) {
+				n = pickS(k.R, []string{"-1", "2147483647", "2147483648", "9223372036854775807", "9223372036854775808", "-9223372036854775808", "1e3", "0x10", "", "٣"})
+			}
+			k.goit("log", "-n", n)
 		}
 	case "reflog":
 		k.goit("reflog")
@@ -543,7 +555,8 @@ func (k *Walker) doReset() {
 	var arg string
 	if k.chance(k.Hostile + 5) {
 		k.invalid = "bad-reflog-position"
-		arg = pickS(k.R, []string{fmt.Sprintf("HEAD@{%d}", n), fmt.Sprintf("HEAD@{%d}", n+1), "HEAD@{99}", "HEAD@{-1}", "HEAD@{}", "HEAD@{a}", "HEAD@1", "xHEAD@{1}y", "HEAD@{1}{2}", "HEAD", "main", ""})
+		arg = pickS(k.R, []string{fmt.Sprintf("HEAD@{%d}", n), fmt.Sprintf("HEAD@{%d}", n+1), "HEAD@{99}", "HEAD@{-1}", "HEAD@{}", "HEAD@{a}", "HEAD@1", "xHEAD@{1}y", "HEAD@{1}{2}", "HEAD", "main", "",
+			"HEAD@{2147483648}", "HEAD@{4294967296}", "HEAD@{9223372036854775807}", "HEAD@{9223372036854775808}", "HEAD@{18446744073709551615}", "HEAD@{18446744073709551616}", "HEAD@{99999999999999999999999}"})
 	} else if n > 0 {
 		arg = fmt.Sprintf("HEAD@{%d}", k.R.IntN(n))
 	} else {
